@@ -150,6 +150,8 @@ def lean_line(op, pi, pt):
         return "\t".join(["removewitheffected", k, enc_rules(op[3])])
     if name == "values":
         return "\t".join(["values", k, str(op[3])])
+    if name == "updatefiltered":
+        return "\t".join(["updatefiltered", k, enc_rules(op[3]), str(op[4]), enc_list([enc_str(v) for v in op[5]])])
     if name == "removeread":
         return "\t".join(["removeread", k, pis, str(op[3]), enc_list([enc_str(v) for v in (op[4] or [])])])
     if name == "updateread":
@@ -211,6 +213,8 @@ def impl_call(e, op, form):
         return e.enforce(*op[3])
     if name == "getfiltered":
         return cp(e.get_filtered_named_grouping_policy(ptype, op[3], *op[4]) if G else e.get_filtered_named_policy(ptype, op[3], *op[4]))
+    if name == "updatefiltered":
+        return e.update_filtered_policies(cp(op[3]), op[4], *op[5]) if unnamed else e.update_filtered_named_policies(ptype, cp(op[3]), op[4], *op[5])
     if name == "removeread":
         # the batch argument is the very object a read returned (op[4] None: get_policy, else get_filtered_policy)
         if G:
@@ -268,7 +272,7 @@ def unit_call(m, op):
 
 # ------------------------------------------------------------------ histories
 
-MUTATORS = ("add", "addmany", "remove", "removemany", "removefiltered", "update", "updatemany", "removewitheffected", "removeread", "updateread")
+MUTATORS = ("add", "addmany", "remove", "removemany", "removefiltered", "update", "updatemany", "removewitheffected", "removeread", "updateread", "updatefiltered")
 
 
 def op_alphabet(sec, ptype, rules, with_update=True, read_fed=False):
@@ -304,6 +308,18 @@ def op_alphabet(sec, ptype, rules, with_update=True, read_fed=False):
         if with_update and sec == "p":
             ops.append(("updateread", sec, ptype, "x"))
     return ops, flts
+
+
+def updatefiltered_alphabet(sec, ptype, rules):
+    """update_filtered_(named_)policies (enforcer level, p sections): applies / new rule equal to a selected one / a rule
+    repeated in the batch / collision with an unselected rule / no new rules / nothing selected / out-of-range filter"""
+    a, b, c = rules[0], rules[1], rules[2]
+    fresh = [a[:-1] + ["other"], b[:-1] + ["other"]]
+    ops = []
+    for idx, fv in [(0, [a[0]]), (1, [a[1]]), (0, ["nobody"]), (0, [""]), (len(a), ["x"])]:
+        for news in ([fresh[0]], [fresh[0], a], [fresh[0], fresh[0]], [fresh[0], b], [fresh[1], c], [], [a, b, c]):
+            ops.append(("updatefiltered", sec, ptype, news, idx, fv))
+    return ops
 
 
 def reads_for(sec, ptype, rules, flts):
@@ -389,6 +405,12 @@ def first_match_decision(policy, req, shape):
     return "F"
 
 
+def _uf_kind(prev_pol, op):
+    import enf_corr
+
+    return enf_corr.updatefiltered_kind(dec_rules(prev_pol), ("updatefiltered", op[3], op[4], op[5]))
+
+
 def compare(prop, res, shape, hist, impl, answers, want):
     """answers: driver answers aligned with hist. want: 'set' (C06) or 'order' (C07)"""
     prev_pol = enc_rules(shape.initial) if shape.pi is None else None
@@ -427,7 +449,7 @@ def compare(prop, res, shape, hist, impl, answers, want):
             if bad:
                 res.violation(
                     {
-                        "signature": f"{prop}:{op[0]}:{shape.sec}:{'prio' if shape.pi is not None else 'plain'}",
+                        "signature": f"{prop}:{op[0]}:{shape.sec}:{'prio' if shape.pi is not None else 'plain'}" + (":" + _uf_kind(prev_pol, op) if op[0] == "updatefiltered" and prev_pol is not None else ""),
                         "what": f"{shape.name}: {op[0]}{tuple(op[3:])} {bad}",
                         "case": case,
                         "model_text": shape.text,
